@@ -25,6 +25,7 @@ import h2.connection
 import h2.errors
 import h2.events
 import h2.exceptions
+import h2.settings
 import priority
 
 from twisted.internet._producer_helpers import _PullToPush
@@ -181,6 +182,8 @@ class H2Connection(Protocol, TimeoutMixin):
                 self._requestAborted(event)
             elif isinstance(event, h2.events.WindowUpdated):
                 self._handleWindowUpdate(event)
+            elif isinstance(event, h2.events.RemoteSettingsChanged):
+                self._handleRemoteSettingsChanged(event)
             elif isinstance(event, h2.events.PriorityUpdated):
                 self._handlePriorityUpdate(event)
             elif isinstance(event, h2.events.ConnectionTerminated):
@@ -682,15 +685,36 @@ class H2Connection(Protocol, TimeoutMixin):
                 self._wakeSendingLoop(streamID)
             self.streams[streamID].windowUpdated()
         else:
-            # Update strictly applies to all streams.  (Waking the sending
-            # loop can complete streams, so iterate over a copy.)
-            for stream in list(self.streams.values()):
-                stream.windowUpdated()
+            self._allWindowsUpdated()
 
-                # If we still have data to send for this stream, unblock it.
-                if self._outboundStreamQueues.get(stream.streamID):
-                    self.priority.unblock(stream.streamID)
-                    self._wakeSendingLoop(stream.streamID)
+    def _handleRemoteSettingsChanged(self, event):
+        """
+        Manage a change of the peer's settings.
+
+        A new value of C{SETTINGS_INITIAL_WINDOW_SIZE} changes the flow
+        control window of every stream (RFC 9113, section 6.9.2), which may
+        let streams that are blocked on flow control proceed.
+
+        @param event: The Hyper-h2 event that encodes information about the
+            changed settings.
+        @type event: L{h2.events.RemoteSettingsChanged}
+        """
+        if h2.settings.SettingCodes.INITIAL_WINDOW_SIZE in event.changed_settings:
+            self._allWindowsUpdated()
+
+    def _allWindowsUpdated(self):
+        """
+        The flow control window of every stream may have been opened.
+        """
+        # Update strictly applies to all streams.  (Waking the sending loop
+        # can complete streams, so iterate over a copy.)
+        for stream in list(self.streams.values()):
+            stream.windowUpdated()
+
+            # If we still have data to send for this stream, unblock it.
+            if self._outboundStreamQueues.get(stream.streamID):
+                self.priority.unblock(stream.streamID)
+                self._wakeSendingLoop(stream.streamID)
 
     def _wakeSendingLoop(self, streamID):
         """
